@@ -157,7 +157,10 @@ Definition si_zeros (x : spec_in) : list proj :=
 (* projects the rounds are about *)
 Definition si_pool (x : spec_in) : list proj :=
   filter (fun p => si_supported x p && Qltb 0 (s_cost (si_costs x) p)) (si_cands x).
-Definition si_share (x : spec_in) : Q := si_budget x / Qnat (nvoters (si_voters x)).
+Definition si_tcost (x : spec_in) (W : list proj) : Q := Qsum (map (s_cost (si_costs x)) W).
+(* every voter receives an equal share of what the initial allocation leaves of the budget *)
+Definition si_share (x : spec_in) : Q :=
+  (si_budget x - si_tcost x (si_init x)) / Qnat (nvoters (si_voters x)).
 
 Definition spec_once (x : spec_in) (b0 : Q) : option (list proj) :=
   match spec_exec (si_costs x) (si_voters x) (si_tb x) (S (si_n x))
@@ -172,13 +175,12 @@ Definition spec_once_all (x : spec_in) (b0 : Q) : option (list (list proj)) :=
   | None => None
   end.
 
-(* every voter receives budget/n *)
+(* every voter receives (budget - cost of the initial allocation)/n *)
 Definition mes_spec (x : spec_in) : option (list proj) := spec_once x (si_share x).
 Definition mes_spec_all (x : spec_in) : option (list (list proj)) := spec_once_all x (si_share x).
 
 (* iterated variant: add [inc] to every voter's endowment until the outcome is exhaustive (with
    respect to the pool) -- then it is returned -- or no longer feasible -- then the previous one is *)
-Definition si_tcost (x : spec_in) (W : list proj) : Q := Qsum (map (s_cost (si_costs x)) W).
 Definition si_feasible (x : spec_in) (W : list proj) : bool := Qleb (si_tcost x W) (si_budget x).
 Definition si_exhaustive (x : spec_in) (W : list proj) : bool :=
   forallb (fun p => memb p W || Qltb (si_budget x) (s_cost (si_costs x) p + si_tcost x W)) (si_pool x).
